@@ -311,6 +311,7 @@ def run(repo: Repo, ctx) -> None:
 
     _r6(repo, ctx)
     _r7(repo, ctx)
+    _r8(repo, ctx)
 
 
 TYPES = 'edb.pgsql.types'
@@ -532,6 +533,75 @@ def _r7(repo: Repo, ctx) -> None:
                                   f'{sorted(o2)}')
     if n < 1:
         raise AnalysisError('C05.R7: no has_table if/elif chain found')
+
+
+def _r8(repo: Repo, ctx) -> None:
+    from .. import lints
+    from ..absint import Facts, must_pass
+    from ..cfg import CFG
+    ctx.floor('C05.R8', 3)
+    # (a) before / after schemas (and other same-typed arguments) reach the
+    #     parameter of their own name
+    n, hits = lints.swapped_arguments(repo, ['edb.pgsql'])
+    if n < 500:
+        raise AnalysisError(f'C05.R8: only {n} resolved call sites')
+    ctx.ob('C05.R8', 'edb.pgsql:argument-alignment', not hits,
+           '; '.join(
+               f'{f.qualname} passes `{a}` and `{b}` to {cal.name} each in '
+               f'the position of the parameter named like the other: the '
+               f'callee decides about storage against the wrong schema '
+               f'version (e.g. a link that is still computed there), so no '
+               f'column / table is emitted' for f, c, cal, a, b in hits[:3]),
+           hits[0][0].loc if hits else '',
+           sample=f'{n} resolved call sites with >= 2 positional arguments')
+    DM = 'edb.pgsql.delta'
+    # (b) the column of a dropped link stays only when the owning object
+    #     type itself is being dropped
+    dl = repo.func(f'{DM}.LinkMetaCommand._delete_link')
+    ctx.saw(dl)
+    g = CFG(dl.node)
+    drops = [n_.id for n_ in g.nodes if any(
+        norm(c.func) == 'dbops.AlterTableDropColumn'
+        for c in g.node_calls(n_))]
+    if not drops:
+        raise AnalysisError('C05.R8: column drop of _delete_link not found')
+    guards = [t for t in g.nodes if t.kind == 'test' and any(
+        g.edge_dominates(t.id, 'T', d) for d in drops)]
+    txt = ' ; '.join(norm(t.ast) for t in guards)
+    ok = 'isinstance(objtype.op, s_objtypes.DeleteObjectType)' in txt
+    ctx.ob('C05.R8', '_delete_link:column-dropped-unless-type-dropped', ok,
+           f'the column drop of a deleted link is guarded by `{txt[:120]}`, '
+           f'not by "the owning object type is itself being dropped": '
+           f'deletes propagated to descendants while the parent\'s command '
+           f'is still on the stack keep their columns', dl.loc,
+           sample='not isinstance(objtype.op, DeleteObjectType)')
+    # (c) only link tables bring their own source / target columns
+    cp = repo.func(f'{DM}.PropertyMetaCommand._create_property')
+    ctx.saw(cp)
+    g = CFG(cp.node)
+    adds = [n_.id for n_ in g.nodes if any(
+        norm(c.func) == 'dbops.AlterTableAddColumn'
+        for c in g.node_calls(n_))]
+    if not adds:
+        raise AnalysisError('C05.R8: column creation of _create_property '
+                            'not found')
+    F = Facts({'src': True, 'types.has_table(src.scls, schema)': True,
+               'prop.is_pure_computable(schema)': False,
+               "ptr_stor_info.table_type == 'ObjectType'": True,
+               "propname not in {'source', 'target'}": False,
+               "propname in {'source', 'target'}": True}, cp.node)
+    F.inst['src.scls'] = {'ObjectType', 'Source', 'InheritingObject',
+                          'Object'}
+    from ..absint import open_nodes
+    on = open_nodes(g, F)
+    loops = [n_.id for n_ in g.nodes if n_.kind == 'for' and 'cols' in
+             norm(n_.ast.iter)]
+    ok = bool(set(loops) & on) or bool(set(adds) & on)
+    ctx.ob('C05.R8', '_create_property:objtype-property-named-source', ok,
+           'a stored single property of an object type that happens to be '
+           'called `source` or `target` gets no column: only link tables '
+           'come with their own source / target columns', cp.loc,
+           sample='skip only when isinstance(src.scls, Link)')
 
 
 def _negated(test: ast.AST, node: ast.AST) -> bool:
